@@ -7,6 +7,16 @@ V = os.path.dirname(os.path.dirname(os.path.abspath(__file__)))
 
 # id -> (level, technique, level text, level note, design ref)
 CHECKS = {
+    "C03": ("model_checking",
+            "explicit construction of the exact transition matrix of the real RWM one-step kernel on finite lattices (every cell x every innovation symbol x redraw continuation) with a detailed-balance check per landscape; "
+            "for tpCN, extraction of the proposal law from the real _propose under a scripted tape, validation on the tape lattice, and comparison of the real acceptance factor with the Metropolis-Hastings ratio for every ordered grid pair; tape-lattice enumeration for hard walls and image-sum detailed balance for folds",
+            "A: the real one-step RWM kernel is executed from every cell of 1-d (M=4,5,6; all 3^M landscapes) and 2-d (3x3, 4x3) lattices with every symbol of a symmetric innovation alphabet, for beta in {0.25,1}, every hard/periodic/reflective assignment and 1-2 clusters; "
+            "pi_i P_ij = pi_j P_ji and pi P = pi are checked to 1e-12 on the resulting matrix (exact for RWM, whose correctness uses only the symmetry of the innovation law). "
+            "B: for every parameter point (d<=3, K<=2, nu in {0.5,1,5,1e6}, three scale matrices, two mode centres, sigma in {0.1,0.5,0.99}) the affine scale-mixture model of the proposal is extracted from the code, replayed on the tape lattice "
+            "(g in {0.25,1,4} x z in {-1,0,1}^d) and the code's acceptance factor is compared with log Q(v->u)-log Q(u->v) for all ordered pairs of a 5^d grid. C: alpha and the accept decision on a lattice of likelihood differences (incl. -inf, nan). "
+            "D: on the tape lattice near hard walls the kernel must draw once and treat outside proposals as rejections; folded tpCN/RWM kernels are checked in 1-d with 6001-term image sums.",
+            "Trusted: closed-form multivariate-t marginal of a normal scale mixture; image sums truncated at |k|<=3000 (tails < 1e-9 for nu>=2). Step-size adaptation across steps is outside the property. tpCN with periodic/reflective coordinates is a recorded known finding.",
+            "DESIGN.md §4 C03"),
     "C04": ("exploration",
             "exhaustive lattice enumeration of stored histories against a 60-digit decimal reference of the mixture formula",
             "Every history of a finite lattice (T<=3/4 iterations, all unequal batch-size tuples, temperatures in every order, evidence values in "
